@@ -11,14 +11,36 @@ ASSUMPTIONS = [
 DOC_BOUND = 11_092_110
 
 
+def _h():
+    """The function under test; a raised exception is an observation (a string no hash equals), not a harness failure."""
+    f = loader.lib("eolib.encrypt.server_verification_utils").server_verification_hash
+
+    def call(c):
+        try:
+            return f(c)
+        except Exception as e:  # noqa: BLE001
+            return f"raised {type(e).__name__}: {e}"
+
+    return call
+
+
+def _hostile_decimal_context():
+    """The calling thread's decimal context is ambient state integer arithmetic must not depend on."""
+    import decimal
+
+    decimal.setcontext(decimal.Context(prec=5, Emax=9, Emin=-9))
+
+
 def _shard(rng):
-    a, b = rng
+    a, b = rng[:2]
     loader.install_shims()
-    h = loader.lib("eolib.encrypt.server_verification_utils").server_verification_hash
+    if len(rng) > 2 and rng[2]:
+        _hostile_decimal_context()
+    h = _h()
     bad, nbad, distinct = [], 0, set()
     for c in range(a, b):
         v = h(c)
-        if v != verification_hash(c) or (c <= DOC_BOUND and not 0 <= v < P4):
+        if v != verification_hash(c) or isinstance(v, str) or (c <= DOC_BOUND and not 0 <= v < P4):
             nbad += 1
             if len(bad) < 3:
                 bad.append(c)
@@ -62,21 +84,28 @@ def run(tier, seed):
     n = sum(r[0] for r in res)
     nbad = sum(r[1] for r in res)
     firsts = [c for r in res for c in r[2]]
-    h = loader.lib("eolib.encrypt.server_verification_utils").server_verification_hash
+    h = _h()
     violations = [
         {"key": f"challenge:{c}", "what": replay({"challenge": c}), "case": {"challenge": c}} for c in firsts
     ]
+    # the whole domain once more under a hostile ambient decimal context (precision 5)
+    res2 = par.pmap(_shard, [r + (True,) for r in par.ranges(0, P3, par.WORKERS * 4)])
+    n_ctx = sum(r[0] for r in res2)
+    nbad += sum(r[1] for r in res2)
+    for c in [c for r in res2 for c in r[2]][:3]:
+        violations.append({"key": f"challenge-under-decimal-context:{c}", "what": replay({"challenge": c, "decimal": True}), "case": {"challenge": c, "decimal": True}})
     for seq, w, upto in seq_bad:
         violations.append({"key": "hash-sequence", "what": w, "case": {"seq": seq}, "alt_cases": [{"seq": seq, "upto": upto}]})
     coverage = {
         "call_sequences": n_seq,
-        "evaluations": n + n_seq,
+        "evaluations": n + n_seq + n_ctx,
+        "evaluations_under_hostile_decimal_context": n_ctx,
         "distinct_nontrivial": n,
         "mismatching_challenges": nbad,
         "domain": [0, P3],
         "exhaustive": n == P3,
         "rule": "every challenge 0 <= c < 253^3 (each integer is a distinct case); hash compared with the truncating-"
-        "remainder reference; for c <= 11,092,110 additionally 0 <= hash < 253^4; call_sequences: every ordered triple over 15 boundary challenges and every ordered 4-sequence over 6 (hidden-state detection)",
+        "remainder reference; for c <= 11,092,110 additionally 0 <= hash < 253^4; the whole domain a second time with the thread's decimal context set to precision 5; call_sequences: every ordered triple over 15 boundary challenges and every ordered 4-sequence over 6 (hidden-state detection)",
         "samples": [{"challenge": c, "hash": h(c)} for c in (0, 1, 12345, 11092003, 11092004, 11092110, 11092479, P3 - 1)],
     }
     from .. import kwforms
@@ -94,7 +123,9 @@ def replay(case):
         bad = kwforms.check("hash")
         return bad[0] if bad else None
     loader.install_shims()
-    h = loader.lib("eolib.encrypt.server_verification_utils").server_verification_hash
+    h = _h()
+    if case.get("decimal"):
+        _hostile_decimal_context()
     if case.get("upto"):
         # context-dependent: replay every call sequence of the run, in order, up to the reported one
         for i, seq in enumerate(_all_sequences()):
@@ -109,7 +140,7 @@ def replay(case):
     c = int(case["challenge"])
     v = h(c)
     if v != verification_hash(c):
-        return f"server_verification_hash({c}) = {v}; the client's truncating arithmetic gives {verification_hash(c)}"
+        return f"server_verification_hash({c}) = {v}; the client's truncating arithmetic gives {verification_hash(c)}" + (" (thread's decimal context: precision 5)" if case.get("decimal") else "")
     if c <= DOC_BOUND and not 0 <= v < P4:
         return f"server_verification_hash({c}) = {v} does not fit an EO int"
     return None
